@@ -107,7 +107,7 @@ def n_candidates(cand, yid):
 @st.composite
 def pool_case(draw, names, allow_feat=True, max_n=None, force_cand=None,
               encodings=("float_nan",), batch_sizes=None, min_unlabeled=1,
-              fixed=None, vary_model=False):
+              fixed=None, vary_model=False, use_alt=False):
     name = draw(st.sampled_from(names))
     ent = poolreg.base_entry(name)
     fixed = fixed or {}
@@ -124,6 +124,17 @@ def pool_case(draw, names, allow_feat=True, max_n=None, force_cand=None,
     cand, cmode = draw(candidates(X, yid, ent, allow_feat=allow_feat,
                                   force=force_cand,
                                   wrapper=poolreg.is_wrapper(name)))
+    if cand["mode"] == "feat" and not poolreg.is_wrapper(name) \
+            and ent["cls"] not in poolreg.NEEDS_UNLABELED \
+            and draw(st.integers(0, 2)) == 0:
+        # candidates given as feature rows do not need an unlabeled sample
+        # in (X, y): a completely labeled training set is a valid input
+        if task == "reg":
+            yid = [v if v is not None else _round2(draw(st.floats(-3, 3)))
+                   for v in yid]
+        else:
+            yid = [v if v is not None else draw(st.integers(0, K - 1))
+                   for v in yid]
     nc = n_candidates(cand, yid)
     if batch_sizes is None:
         bs = draw(st.sampled_from(sorted({1, 2, 3, nc, nc + 1, nc + 5})))
@@ -137,6 +148,13 @@ def pool_case(draw, names, allow_feat=True, max_n=None, force_cand=None,
             ent["model"][1] == "pwc" and ent["cls"] in poolreg.ANY_CLF:
         opts["model_key"] = draw(st.sampled_from(
             ["pwc", "pwc", "gnb", "lr", "tree_clf", "pwc_default"]))
+    if use_alt and ent["alt"] and not poolreg.is_wrapper(name) and \
+            draw(st.integers(0, 2)) == 0:
+        # alternative constructor configuration (dict / array valued
+        # parameters, other integration methods, precomputed kernels)
+        opts["alt_init"] = draw(st.integers(0, len(ent["alt"]) - 1))
+    if ent["model"] and ent["model"][0] == "discriminator":
+        opts["disc_preconfigured"] = draw(st.booleans())
     if poolreg.is_wrapper(name):
         opts["max_candidates_int"] = draw(st.integers(1, 6))
         opts["max_candidates_float"] = draw(st.sampled_from(
